@@ -7,9 +7,9 @@ the handful of values of modes D and M. The program is written with loops, so it
            until nil and reports through a result channel
   shape 2  main launches the producer and drains the channel itself
 
-Every shape is determinate in what it prints: capacity(), the number of values main had sent when the consumer got its
-first one (shape 1: min(n, capacity) -- a buffered send parks only when the channel is full), the highest len() seen
-(never above the capacity asked for), the count received and whether they came in sending order."""
+Shape 0 has one fiber and an exact expected output. Shapes 1 and 2 are judged by what holds under every schedule:
+capacity() is the capacity asked for, all n values arrive once and in order, then nil, len() never exceeds the capacity,
+and the consumer's first value arrives when main has sent at most min(n, capacity) values."""
 from hypothesis import strategies as st
 
 from .runner import Failure
@@ -74,9 +74,7 @@ def expected(net):
     if shape == 0:
         n = min(n, cap)
         return "cap %d\nlen %d\ncount %d ordered true\nhigh %d\nEND\n" % (cap, n, n, n)
-    if shape == 1:
-        return "cap %d\ncount %d ordered true\nahead %d\nhigh %d\nEND\n" % (cap, n, min(n, cap), min(n, cap))
-    return None  # shape 2: judged by predicate
+    return None  # shapes 1 and 2 involve two fibers: judged by a predicate that holds under every schedule
 
 
 def budget(net):
@@ -107,6 +105,16 @@ def failure(prop, net, r, src, progress_only=False):
         high = int([l for l in lines if l.startswith("high ")][0][5:])
     except (IndexError, ValueError):
         return Failure("%s/bulk/output" % prop, "no high-water mark printed\n" + desc, info)
-    if lines[0] != "cap %d" % cap or "count %d ordered true" % n not in lines or "sent %d" % n not in lines or high > cap:
-        return Failure("%s/bulk/output" % prop, "expected cap %d, count %d ordered true, sent %d, high <= %d\n%s" % (cap, n, n, cap, desc), info)
+    sent_ok = net["shape"] != 2 or "sent %d" % n in lines
+    ahead_ok = True
+    if net["shape"] == 1:
+        # how many values main had sent when the consumer got its first one: never more than the channel holds
+        try:
+            ahead = int([l for l in lines if l.startswith("ahead ")][0][6:])
+            ahead_ok = 0 <= ahead <= min(n, cap)
+        except (IndexError, ValueError):
+            ahead_ok = False
+    if lines[0] != "cap %d" % cap or "count %d ordered true" % n not in lines or not sent_ok or not ahead_ok or high > cap:
+        return Failure("%s/bulk/output" % prop, "expected cap %d, count %d ordered true, every value sent, ahead <= min(n, cap), high <= %d\n%s" %
+                       (cap, n, cap, desc), info)
     return None
